@@ -733,7 +733,8 @@ def run(ctx):
         ctx.notes.append('extracted model unavailable: correspondence and monitor not run')
         return
     t0 = time.time()
-    from lib import authoropts
+    from lib import authoropts, identity
+    identity.check(ctx, 'handle_comments: comment author in admins, == pull request author')
     authoropts.check(ctx)            # "... or is granted by per-author settings": several authors in one settings file
     opts, cmds = _prepare(ctx)
     words = opts + cmds + UNKNOWN
